@@ -34,6 +34,57 @@ pub fn run_case2(f: &[&str], _home: &std::path::Path) -> String {
             let r = Request{ method: "GET".into(), request_uri: "/".into(), http_version: "HTTP/1.1".into(), headers: hs.unwrap(), body: vec![] };
             match std::panic::catch_unwind(|| r.get_header(n.unwrap()).map(|h| h.value.clone())) { Err(_) => "PANIC".to_string(), Ok(None) => "NONE".to_string(), Ok(Some(v)) => format!("SOME {}", hex(v.as_bytes())) }
         }
+        // resprt <static|inst> <code> <reason> <headers> <parts>: serialise a Response value with one of the two serialisers, then Response::parse
+        "resprt" => {
+            use crate::response::Response; use crate::range::{ContentRange, Range};
+            let (rsn, hs) = (us(f[3]), headers_of(f[4]));
+            if rsn.is_none() || hs.is_none() { return "SKIP".to_string(); }
+            let mut parts = vec![];
+            if f[5] != "-" { for p in f[5].split(',') { let x: Vec<&str> = p.split(':').collect();
+                let (z, t) = (us(x[2]), us(x[3])); if z.is_none() || t.is_none() { return "SKIP".to_string(); }
+                parts.push(ContentRange{ unit: "bytes".to_string(), range: Range{ start: x[0].parse().unwrap(), end: x[1].parse().unwrap() }, size: z.unwrap(), body: unhex(x[4]), content_type: t.unwrap() }); } }
+            let mut r = Response{ http_version: "HTTP/1.1".to_string(), status_code: f[2].parse().unwrap(), reason_phrase: rsn.unwrap(), headers: hs.unwrap(), content_range_list: parts };
+            let inst = f[1] == "inst";
+            let g = match std::panic::catch_unwind(std::panic::AssertUnwindSafe(|| if inst { r.generate() } else {
+                let req = Request{ method: "GET".into(), request_uri: "/".into(), http_version: "HTTP/1.1".into(), headers: vec![], body: vec![] };
+                Response::generate_response(r.clone(), req) })) { Err(_) => return "PANIC".to_string(), Ok(g) => g };
+            let p = match std::panic::catch_unwind(|| Response::parse(&g)) { Err(_) => "PANIC".to_string(), Ok(Err(_)) => "ERR".to_string(),
+                Ok(Ok(r)) => format!("OK {} {} {} h=[{}] r=[{}]", hex(r.http_version.as_bytes()), r.status_code, hex(r.reason_phrase.as_bytes()),
+                    r.headers.iter().map(|h| format!("{}:{}", hex(h.name.as_bytes()), hex(h.value.as_bytes()))).collect::<Vec<_>>().join(";"),
+                    r.content_range_list.iter().map(|c| format!("{}-{}/{}:{}:{}", c.range.start, c.range.end, c.size, hex(&c.body), hex(c.content_type.as_bytes()))).collect::<Vec<_>>().join(";")) };
+            format!("G {} | {}", hex(&g), p)
+        }
+        // mprt <boundary> <part;part..>  part = headers(name:value&name:value or -)=body   : FormMultipartData::generate then parse
+        "mprt" => {
+            use crate::body::multipart_form_data::{FormMultipartData, Part};
+            let bd = us(f[1]); if bd.is_none() { return "SKIP".to_string(); } let bd = bd.unwrap();
+            let mut parts = vec![];
+            if f[2] != "-" { for p in f[2].split(';') { let (h, b) = p.split_once('=').unwrap();
+                let hs = headers_of(&h.replace('&', ";")); if hs.is_none() { return "SKIP".to_string(); }
+                parts.push(Part{ headers: hs.unwrap(), body: unhex(b) }); } }
+            let g = match std::panic::catch_unwind(std::panic::AssertUnwindSafe(|| FormMultipartData::generate(parts, &bd))) { Err(_) => return "PANIC".to_string(), Ok(Err(_)) => return "GENERR".to_string(), Ok(Ok(g)) => g };
+            let show = |ps: &Vec<Part>| ps.iter().map(|p| format!("{}={}", p.headers.iter().map(|h| format!("{}:{}", hex(h.name.as_bytes()), hex(h.value.as_bytes()))).collect::<Vec<_>>().join("&"), hex(&p.body))).collect::<Vec<_>>().join(";");
+            let p = match std::panic::catch_unwind(|| FormMultipartData::parse(&g, bd.clone())) { Err(_) => "PANIC".to_string(), Ok(Err(_)) => "ERR".to_string(), Ok(Ok(ps)) => format!("OK {}", show(&ps)) };
+            format!("G {} | {}", hex(&g), p)
+        }
+        // qrt <k:v;k:v>  URL::build_query then URL::parse_query;  furt: FormUrlEncoded::generate then ::parse;  pct <s>: percent_encode then percent_decode
+        "qrt" | "furt" => {
+            let mut m = std::collections::HashMap::new();
+            if f[1] != "-" { for kv in f[1].split(';') { let mut it = kv.split(':'); let k = us(it.next().unwrap_or("")); let v = us(it.next().unwrap_or(""));
+                if k.is_none() || v.is_none() { return "SKIP".to_string(); } m.insert(k.unwrap(), v.unwrap()); } }
+            let show = |m: &std::collections::HashMap<String, String>| { let mut v: Vec<String> = m.iter().map(|(k, v)| format!("{}={}", hex(k.as_bytes()), hex(v.as_bytes()))).collect(); v.sort(); v.join(";") };
+            if f[0] == "qrt" {
+                let q = match std::panic::catch_unwind(|| crate::url::URL::build_query(m.clone())) { Err(_) => return "PANIC".to_string(), Ok(q) => q };
+                match std::panic::catch_unwind(|| crate::url::URL::parse_query(&q)) { Err(_) => format!("Q {} | PANIC", hex(q.as_bytes())), Ok(r) => format!("Q {} | OK {}", hex(q.as_bytes()), show(&r)) }
+            } else {
+                let q = match std::panic::catch_unwind(|| crate::body::form_urlencoded::FormUrlEncoded::generate(m.clone())) { Err(_) => return "PANIC".to_string(), Ok(q) => q };
+                match std::panic::catch_unwind(|| crate::body::form_urlencoded::FormUrlEncoded::parse(q.as_bytes().to_vec())) { Err(_) => format!("Q {} | PANIC", hex(q.as_bytes())),
+                    Ok(Err(_)) => format!("Q {} | ERR", hex(q.as_bytes())), Ok(Ok(r)) => format!("Q {} | OK {}", hex(q.as_bytes()), show(&r)) }
+            }
+        }
+        "pct" => { match us(f.get(1).unwrap_or(&"")) { None => "SKIP".to_string(), Some(t) => {
+            let e = crate::url::URL::percent_encode(&t); let d = crate::url::URL::percent_decode(&e);
+            format!("E {} | D {}", hex(e.as_bytes()), hex(d.as_bytes())) } } }
         "pool" => crate::pool::run_pool(f),
         _ => "?".to_string(),
     }
